@@ -305,6 +305,97 @@ def wire_history(run, rng, steps):
     run.count("wire_histories")
 
 
+def wire_history_two_ports(run, rng, steps):
+    """a node attached to two networks (an application on the first): requests for destinations without a path are parked
+    behind Who-Is-Router-To-Network; the announcement that answers may arrive on either network; what was parked and what
+    is sent afterwards goes out on the network of the announcing router, to that router"""
+    CLK.reset()
+    lans = {1: Network(name="lan1", broadcast_address=LocalBroadcast()), 2: Network(name="lan2", broadcast_address=LocalBroadcast())}
+    frames = []
+    for k, lan in lans.items():
+        lan.traffic_log = (lambda name, pdu, k=k: frames.append((k, str(pdu.pduSource), str(pdu.pduDestination), bytes(pdu.pduData))))
+    nsap = NetworkServiceAccessPoint()
+    nse = NetworkServiceElement()
+    bind(nse, nsap)
+    nsap.bind(Node(Address(1), lans[1]), net=1, address=Address(1))
+    nsap.bind(Node(Address(1), lans[2]), net=2)
+    top = Top()
+    bind(top, nsap)
+    routers = {"A": (1, 10), "B": (1, 11), "C": (2, 12), "D": (2, 13)}
+    inj = {n: Node(Address(a), lans[k]) for n, (k, a) in routers.items()}
+    dnets = [5, 6, 7, 8]
+    path = {}                  # (attached net, destination) -> router name (newest announcement wins)
+    parked = {d: 0 for d in dnets}
+    hist = []
+    CLK.settle()
+
+    def data_frames(d):
+        out = []
+        for k, src, dst, o in frames:
+            if src != "1":
+                continue
+            try:
+                f = W.npci_parse(o)
+            except W.Malformed:
+                continue
+            if f["net_message"] is None and f["dnet"] == d:
+                out.append((k, dst))
+        return out
+
+    for step in range(steps):
+        r = rng.random()
+        del frames[:]
+        if r < 0.45:
+            rn = rng.choice(sorted(routers))
+            k, mac = routers[rn]
+            nets = tuple(rng.sample(dnets, rng.choice((1, 1, 2))))
+            hist.append(("iam", rn, nets))
+            pdu = PDU(W.npci_build(dict(net_message=1, payload=W.nlm_build(1, {"nets": nets}))), source=Address(mac), destination=LocalBroadcast())
+            inj[rn].indication(pdu)
+            CLK.settle()
+            for d in nets:
+                path[(k, d)] = rn
+                # another router credited with d on that network loses it
+                got = data_frames(d)
+                run.count("announcements_checked")
+                if parked[d]:
+                    run.count("parked_releases_checked")
+                    want = [(k, str(mac))] * parked[d]
+                    if sorted(got) != sorted(want):
+                        run.violation("parked-traffic-not-released-to-the-announcing-router", {"history": hist[-8:], "dnet": d, "parked": parked[d],
+                                                                                             "released_as_(network, next hop)": got[:6], "expected": want[:6]})
+                        return
+                    parked[d] = 0
+                elif got:
+                    run.violation("traffic-appears-without-a-request", {"history": hist[-8:], "dnet": d, "frames": got[:4]})
+                    return
+        else:
+            d = rng.choice(dnets)
+            hist.append(("send", d))
+            req = UnconfirmedRequestPDU(8)
+            req.pduData = bytearray(b"\x09" + bytes([d]))
+            req.pduDestination = RemoteStation(d, 99)
+            try:
+                top.request(req)
+                CLK.settle()
+            except Exception as err:
+                run.violation("sending-after-history-raised/" + type(err).__name__, {"history": hist[-8:], "dnet": d, "error": repr(err)[:100]})
+                return
+            known = {(k, str(routers[path[(k, d)]][1])) for k in (1, 2) if (k, d) in path}
+            got = data_frames(d)
+            run.count("probes_compared")
+            if not known:
+                if got:
+                    run.violation("traffic-sent-to-forgotten-or-unknown-router", {"history": hist[-8:], "dnet": d, "next_hop": got[0]})
+                    return
+                parked[d] += 1
+            elif len(got) != 1 or got[0] not in known:
+                run.violation("traffic-follows-stale-routing-knowledge/two-ports", {"history": hist[-8:], "dnet": d, "sent_as_(network, next hop)": got[:4],
+                                                                                  "current_knowledge": sorted(known)})
+                return
+    run.count("wire_histories_two_ports")
+
+
 def main():
     global RUN
     run = RUN = Run("C19", "exploration", RULE, assumptions=[
@@ -317,7 +408,7 @@ def main():
     if thorough and run.args.shard is None:
         run.run_shards("rv.props.c19")
         run.exhaustive = True
-        return run.finish(require=("operations_applied", "lookups_compared", "invariant_evaluations", "probes_compared"))
+        return run.finish(require=("operations_applied", "lookups_compared", "invariant_evaluations", "probes_compared", "parked_releases_checked"))
     engine = class_invariant(RouterInfoCache, cache_invariant, INV)
     run.extra["invariant_engine"] = engine
     rng = run.rng("c19")
@@ -347,13 +438,14 @@ def main():
             run.case(("wire", run.shard[0], i), sample={"kind": "wire history", "steps": 25}, sample_key=("wire",))
             try:
                 wire_history(run, rng, 25)
+                wire_history_two_ports(run, rng, 30)
             except StepBudgetExceeded as err:
                 run.violation("node-does-not-quiesce", {"error": str(err)})
     run.count("invariant_evaluations", INV["n"])
     if INV.get("monitor_errors"):
         run.inconclusive_because("invariant monitor raised: %s" % INV.get("last_monitor_error"))
     run.exhaustive = True
-    run.finish(require=("operations_applied", "lookups_compared", "invariant_evaluations", "probes_compared") if run.only is None else ())
+    run.finish(require=("operations_applied", "lookups_compared", "invariant_evaluations", "probes_compared", "parked_releases_checked") if run.only is None else ())
 
 
 def replay(run):
